@@ -51,7 +51,7 @@ func cmdConc(args []string) {
 	n := 0
 	for _, s := range scns {
 		for _, cfg := range []scn.ConcConfig{{G: *g, ShareTarget: true, ShareOpts: true}, {G: *g, ShareTarget: false, ShareOpts: true},
-			{G: *g, ShareTarget: true, ShareOpts: false}} {
+			{G: *g, ShareTarget: true, ShareOpts: false}, {G: *g, ShareTarget: true, ShareOpts: false, PadDefaults: true}} {
 			for k := 0; k < *rounds; k++ {
 				mu.Lock()
 				ids = map[int64]int{}
